@@ -24,6 +24,7 @@ type Ev struct {
 	Msg    *packet.Message
 	Err    error
 	Acked  int // logical time the ack passed to the hook was invoked (0 = not yet)
+	Refused bool // the hook invoked the ack but then returned an error: the hand-over was not accepted
 }
 
 // HeldAck is an acknowledgement the recorder is holding back.
@@ -171,8 +172,17 @@ func (r *Recorder) Publish(c *broker.Client, msg *packet.Message, ack broker.Ack
 		return ErrHook
 	}
 	tag := ev.Tag
+	invoked := false
+	defer func() {
+		// a hand-over the backend refused (Publish returned an error) was not accepted, whatever it did with the ack
+		if ev.Err != nil && invoked {
+			r.Accepted[tag]--
+			ev.Refused = true
+		}
+	}()
 	ev.Err = r.MemoryBackend.Publish(c, msg, func() {
-		// the backend has accepted responsibility for the message
+		// the backend has accepted responsibility for the message (provided Publish does not fail afterwards)
+		invoked = true
 		r.Accepted[tag]++
 		if r.HoldAcks && ack != nil {
 			r.Held = append(r.Held, &HeldAck{Ev: ev, ack: ack})
